@@ -116,6 +116,111 @@ def run_case(R, tmp, case, meas):
     return fails, tr
 
 
+def _p_image_checksum_bytes():
+    m = samples.images(1)
+    sorted(m.images["Server"]["x86_64"], key=lambda i: i.path)[0].checksums = {"md5": b"0123456789abcdef0123456789abcdef"}
+    return m
+
+
+def _p_images_mixed_keys():
+    m = samples.images(1)
+    m.images[1] = m.images["Client"]
+    return m
+
+
+def _p_rpms_sigkey_bytes():
+    m = samples.rpms(1)
+    for v in m.rpms:
+        for a in m.rpms[v]:
+            for sr in m.rpms[v][a]:
+                for r in m.rpms[v][a][sr]:
+                    m.rpms[v][a][sr][r]["sigkey"] = b"f5282ee4"
+    return m
+
+
+def _p_modules_rpm_set():
+    m = samples.modules(1)
+    for v in m.modules:
+        for a in m.modules[v]:
+            for uid in m.modules[v][a]:
+                m.modules[v][a][uid]["rpms"] = set(["a-0:1-1.noarch"])
+    return m
+
+
+def _p_extra_files_size_object():
+    m = samples.extra_files(1)
+    m.extra_files["Server"]["x86_64"][0]["size"] = object()
+    return m
+
+
+def _p_composeinfo_arch_bytes():
+    ci = samples.composeinfo(0)
+    ci["Server-optional"].arches = set([b"x86_64"])
+    ci["Server"].arches = set(["ppc64le", "x86_64", b"x86_64"][1:])
+    return ci
+
+
+SURROGATE = "caf\udce9"        # what os.listdir / os.fsdecode return for a file name that is not valid UTF-8
+
+
+def _p_surrogate(fmt):
+    def make():
+        o = samples.build(fmt, 1)
+        if fmt == "composeinfo":
+            o["Server"].paths.os_tree["x86_64"] = "Server/x86_64/" + SURROGATE
+        elif fmt == "images":
+            sorted(o.images["Server"]["x86_64"], key=lambda i: i.path)[0].volume_id = SURROGATE
+        elif fmt == "rpms":
+            for v in o.rpms:
+                for a in o.rpms[v]:
+                    for sr in o.rpms[v][a]:
+                        for r in o.rpms[v][a][sr]:
+                            o.rpms[v][a][sr][r]["path"] = "Packages/" + SURROGATE
+        elif fmt == "modules":
+            o.compose.label = None
+            for v in o.modules:
+                for a in o.modules[v]:
+                    for uid in o.modules[v][a]:
+                        o.modules[v][a][uid]["modulemd_path"]["binary"] = "repodata/" + SURROGATE
+        elif fmt == "extra_files":
+            o.extra_files["Server"]["x86_64"][0]["file"] = "Server/x86_64/os/" + SURROGATE
+        elif fmt == "treeinfo":
+            o["Server"].paths.packages = "Pack" + SURROGATE
+        elif fmt == "discinfo":
+            o.description = "Fedora " + SURROGATE
+        return o
+    return make
+
+
+PAYLOAD = {"an image checksum value given as bytes": _p_image_checksum_bytes, "variant keys of mixed types in Images.images": _p_images_mixed_keys,
+           "an rpm signing key given as bytes": _p_rpms_sigkey_bytes, "a module RPM list given as a set": _p_modules_rpm_set,
+           "an extra file size that is no number": _p_extra_files_size_object, "a variant arch given as bytes": _p_composeinfo_arch_bytes}
+for _fmt in samples.FORMATS:
+    PAYLOAD["%s: a text value with a lone surrogate (undecodable file name)" % _fmt] = _p_surrogate(_fmt)
+
+
+def eval_payload(name, make, disk0, tmp):
+    obj = make()
+    path = os.path.join(tmp, "payload_dest")
+    if os.path.exists(path):
+        os.unlink(path)
+    old = "the last good copy\n" * 50
+    if disk0 == "Old":
+        with open(path, "w") as fh:
+            fh.write(old)
+    try:
+        obj.dump(path)
+        return []                         # the library wrote it: not a rejected object
+    except Exception:
+        pass
+    now = open(path).read() if os.path.exists(path) else None
+    if disk0 == "Old" and now != old:
+        return ["%s: the dump was rejected and the previous file was %s" % (name, "deleted" if now is None else "replaced by %d bytes" % len(now))]
+    if disk0 == "Absent" and now is not None:
+        return ["%s: the dump was rejected and left a new %d-byte file behind" % (name, len(now))]
+    return []
+
+
 def run(ctx):
     ctx.level = "model_checking"
     ctx.rule = ("validation points are measured on the working tree (every _validate* call occurrence of a valid dump of each of the 7 "
@@ -166,6 +271,13 @@ def run(ctx):
                     ctx.fail(dict(c, disk0=disk0), f, "invalid-value")
         ctx.evaluations += n
         ctx.notes["real_invalid_value_dumps"] = n
+        # invalid values in payload no validator looks at: only the writer of the file trips over them
+        for name, make in PAYLOAD.items():
+            for disk0 in ("Old", "Absent"):
+                n += 1
+                for f in eval_payload(name, make, disk0, tmp):
+                    ctx.fail({"payload": name, "disk0": disk0, "fmt": name.split(":")[0]}, f, "payload")
+        ctx.evaluations += 2 * len(PAYLOAD)
     finally:
         shutil.rmtree(tmp, ignore_errors=True)
     # code -> spec: event order of every recorded dump
@@ -192,6 +304,9 @@ def replay(info):
     R = _install()
     tmp = tempfile.mkdtemp(prefix="verif-c18-")
     try:
+        if info["kind"] == "payload":
+            c = info["case"]
+            return eval_payload(c["payload"], PAYLOAD[c["payload"]], c["disk0"], tmp)
         if info["kind"] == "invalid-value":
             from . import corruptions
             return corruptions.eval_dump_path(info["case"], info["case"]["disk0"], tmp)
